@@ -401,6 +401,338 @@ def main(ctx):
         acases.append(gen_asgi_case(rng, 6 if i % 4 else 14, 4 if i % 5 else 8, 6 if i % 7 else 30))
     acases += exhaustive_asgi(2 if quick else 3)
     run_asgi_cases(ctx, falcon, model, acases)
+    # ---- the request objects, driven through the raw WSGI / ASGI callables
+    run_wsgi_request_cases(ctx, falcon, model, [gen_wreq_case(rng) for _ in range(4000 if quick else 40000)])
+    run_asgi_request_cases(ctx, falcon, model, [gen_areq_case(rng) for _ in range(2500 if quick else 25000)])
+
+
+# ----------------------------------------------------------------------------- request objects
+
+CL_HEADERS = [None, '', '0', '3', '5', '8', '007', 'abc', '-1', '-0', '1.5', ' 4', '+4', '4 ', '1_0', '0x10', '\xb2']
+
+
+def classify_cl(value):
+    """Content-Length header text -> wire clen, by Python's own int()."""
+    if value is None:
+        return [0]
+    if not value:
+        return [1]
+    try:
+        return [3, int(value)]
+    except ValueError:
+        return [2]
+
+
+def gen_wreq_case(rng):
+    cl, data, caps, ops = gen_wsgi_case(rng, 6, 10)
+    hdr = rng.choice(CL_HEADERS + [str(len(data)), str(len(data)), str(cl), str(cl)])
+    qops = []
+    for op in ops:
+        x = rng.random()
+        if x < 0.25:
+            qops.append(('raw-read', rng.choice([None, -1, 0, 1, 2, 3])))
+        elif x < 0.35:
+            qops.append(('raw-readline', rng.choice([None, -1, 2])))
+        else:
+            qops.append(op)
+    if rng.random() < 0.5:   # histories that only use the bounded accessor
+        qops = [o for o in qops if not o[0].startswith('raw-')] or [('read', None)]
+    return hdr, data, caps, qops
+
+
+def wire_qop(op):
+    if op[0] == 'raw-read':
+        return [10, wire_opt(op[1])]
+    if op[0] == 'raw-readline':
+        return [11, wire_opt(op[1])]
+    return wire_wop(op)
+
+
+def run_wsgi_request_impl(falcon, app_box, hdr, data, caps, qops):
+    """One request through the raw WSGI callable; the responder replays [qops] on req."""
+    from falcon import testing
+    fake = FakeInput(data, caps)
+    env = testing.create_environ(method='POST', path='/c07')
+    env['wsgi.input'] = fake
+    if hdr is None:
+        env.pop('CONTENT_LENGTH', None)
+    else:
+        env['CONTENT_LENGTH'] = hdr
+    box = {'out': [], 'problems': []}
+
+    def script(req):
+        seen = None
+        for op in qops:
+            p0 = fake.p
+            try:
+                if req.stream is not fake:
+                    box['problems'].append('req.stream is not env[wsgi.input]')
+                k = op[0]
+                if k == 'raw-read':
+                    r = [0, list(req.stream.read() if op[1] is None else req.stream.read(op[1]))]
+                    bs = seen
+                elif k == 'raw-readline':
+                    r = [0, list(req.stream.readline() if op[1] is None else req.stream.readline(op[1]))]
+                    bs = seen
+                else:
+                    bs = req.bounded_stream
+                    if seen is not None and bs is not seen:
+                        box['problems'].append('req.bounded_stream created more than once')
+                    seen = bs
+                    if k == 'read':
+                        r = [0, list(bs.read(op[1]))]
+                    elif k == 'readline':
+                        r = [0, list(bs.readline(op[1]))]
+                    elif k == 'readlines':
+                        r = [1, [list(x) for x in bs.readlines(op[1])]]
+                    elif k == 'next':
+                        try:
+                            r = [0, list(next(bs))]
+                        except StopIteration:
+                            r = [2]
+                    elif k == 'exhaust':
+                        bs.exhaust(op[1])
+                        r = [3, list(fake.data[p0:fake.p])]
+                    else:
+                        r = [4, 1 if bs.eof else 0]
+            except Exception as e:  # noqa: BLE001
+                r = [-1, type(e).__name__]
+            eof = None if seen is None else (1 if seen.eof else 0)
+            box['out'].append([r, eof, fake.p, fake.reach, fake.unb])
+
+    app_box['script'] = script
+    status = []
+    body = app_box['wsgi'](env, lambda s, h, e=None: status.append(s))
+    list(body)
+    box['status'] = status[0] if status else None
+    box['final_pos'] = fake.p
+    return box
+
+
+def make_apps(falcon):
+    import falcon.asgi
+    box = {}
+
+    class R:
+        def on_post(self, req, resp):
+            box['script'](req)
+
+    class AR:
+        async def on_post(self, req, resp):
+            await box['script'](req)
+
+    wa = falcon.App()
+    wa.add_route('/c07', R())
+    aa = falcon.asgi.App()
+    aa.add_route('/c07', AR())
+    box['wsgi'], box['asgi'] = wa, aa
+    return box
+
+
+def run_wsgi_request_cases(ctx, falcon, model, cases):
+    app_box = make_apps(falcon)
+    wires = [[4, classify_cl(hdr), data, caps, [wire_qop(o) for o in qops]] for hdr, data, caps, qops in cases]
+    outs = model.run_many(wires)
+    oracle_q, oracle_meta = [], []
+    bad = []
+    for i, (case, m) in enumerate(zip(cases, outs)):
+        hdr, data, caps, qops = case
+        box = run_wsgi_request_impl(falcon, app_box, hdr, data, caps, qops)
+        r = box['out']
+        detail = {'side': 'wsgi-request', 'content_length_header': hdr, 'data': list(data), 'caps': caps,
+                  'ops': jd(qops), 'impl': r, 'status': box['status']}
+        ctx.note_case(('wq', i), any(x[0][0] in (0, 1, 3) and x[0][1] for x in r))
+        ctx.count('wsgi-request')
+        for prob in box['problems'][:1]:
+            ctx.violation('wrapper-violated', dict(detail, what=prob), key='wq-' + prob[:20])
+        if box['final_pos'] != (r[-1][2] if r else 0) or box['status'] != '200 OK':
+            ctx.violation('wrapper-violated', dict(detail, what='the framework touched wsgi.input outside the '
+                                                   'responder, or the request failed'), key='wq-outside')
+        budget, mobs, made = m
+        # model's eof is reported only once the wrapper exists
+        mo = []
+        exists = False
+        for op, x in zip(qops, mobs):
+            exists = exists or not op[0].startswith('raw-')
+            mo.append([x[0], (x[1] if exists else None)] + x[2:])
+        if jd(r) != mo:
+            ctx.count('wsgi-request-disagree')
+            bad.append(dict(detail, model=mo, broken='C07.wsgi_request_corr'))
+        if all(not o[0].startswith('raw-') for o in qops) and wsgi_in_domain((budget, data, caps, qops)):
+            # only the bounded accessor: the stream oracle applies with the effective Content-Length
+            oracle_q.append(wsgi_obs_wire((budget, data, caps, qops), r))
+            oracle_meta.append(detail)
+        else:
+            # mixed use: one shared cursor - every byte wsgi.input handed out was returned, once, in order
+            got = b''.join(bytes(x[0][1]) if x[0][0] in (0, 3) else b''.join(bytes(y) for y in x[0][1])
+                           if x[0][0] == 1 else b'' for x in r)
+            if got != bytes(data)[:box['final_pos']]:
+                ctx.violation('wrapper-violated', dict(detail, what='accessors do not share one cursor'),
+                              key='wq-cursor')
+            tot = sum(len(x[0][1]) if x[0][0] in (0, 3) else sum(len(y) for y in x[0][1]) if x[0][0] == 1 else 0
+                      for o, x in zip(qops, r) if not o[0].startswith('raw-'))
+            if tot > budget:
+                ctx.violation('wrapper-violated', dict(detail, what='bounded_stream returned more than Content-Length'),
+                              key='wq-budget')
+    verdicts = model.run_many(oracle_q)
+    found = False
+    for d, v in zip(oracle_meta, verdicts):
+        if v:
+            found = True
+            ctx.violation('stream-clause-violated', dict(d, clauses_failed=v,
+                                                         clause_names=[W_CLAUSES[c] for c in sorted(set(v))]),
+                          key='wq-clause-%s' % sorted(set(v)))
+    for d in bad[:1]:
+        ctx.violation('correspondence-broken', d, found_input=found or any(v['found_input'] for v in ctx.violations),
+                      key='wq-corr')
+
+
+def gen_areq_case(rng):
+    first, cl, events, ops = gen_asgi_case(rng, 6, 4, 6)
+    if first is None:
+        first = ([], True)
+    hdr = rng.choice([None, None, '', 'abc', '-1', '0', '4', '007'] + [None if cl is None else str(cl)] * 6)
+    return first, hdr, events, [(rng.random() < 0.5, o) for o in ops]
+
+
+def run_asgi_request_impl(falcon, app_box, loop, first, hdr, events, ops, rng):
+    from falcon import testing
+    from falcon.errors import OperationNotAllowed
+    script_events = [make_event(('req', first[0], first[1]), rng)] + [make_event(e, rng) for e in events]
+    cl = None
+    st = {'calls': 0}
+
+    async def receive():
+        st['calls'] += 1
+        return script_events.pop(0) if script_events else {'type': 'http.disconnect'}
+
+    sent = []
+
+    async def send(ev):
+        sent.append(ev)
+
+    scope = testing.create_scope(method='POST', path='/c07')
+    scope['headers'] = [h for h in scope['headers'] if h[0] != b'content-length']
+    if hdr is not None:
+        scope['headers'].append((b'content-length', hdr.encode('latin1')))
+    box = {'out': [], 'problems': []}
+
+    async def script(req):
+        seen, gen = None, None
+        for via_stream, op in ops:
+            try:
+                s = req.stream if via_stream else req.bounded_stream
+                if seen is not None and s is not seen:
+                    box['problems'].append('req.stream / req.bounded_stream are not one object created once')
+                seen = s
+                k = op[0]
+                if k == 'read':
+                    r = [0, list(await s.read(op[1]))]
+                elif k == 'readall':
+                    r = [0, list(await s.readall())]
+                elif k == 'next':
+                    if gen is None:
+                        gen = s.__aiter__()
+                    try:
+                        r = [0, list(await gen.__anext__())]
+                    except StopAsyncIteration:
+                        r = [1]
+                elif k == 'iternew':
+                    if gen is not None:
+                        await gen.aclose()
+                    gen = s.__aiter__()
+                    r = [3]
+                elif k == 'exhaust':
+                    await s.exhaust()
+                    r = [3]
+                elif k == 'close':
+                    s.close()
+                    r = [3]
+                elif k == 'tell':
+                    r = [5, s.tell()]
+                elif k == 'eof':
+                    r = [4, 1 if s.eof else 0]
+                else:
+                    r = [4, 1 if s.closed else 0]
+            except OperationNotAllowed:
+                r = [2, 1]
+            except falcon.HTTPInvalidHeader:
+                r = [2, 3]
+            except ValueError as e:
+                r = [2, 2] if type(e) is ValueError else [-1, type(e).__name__]
+            except Exception as e:  # noqa: BLE001
+                r = [-1, type(e).__name__]
+            if seen is None:
+                box['out'].append([r])
+            else:
+                # awaits: receive() calls made by the stream = all calls minus the app's first one
+                box['out'].append([r, seen.tell(), 1 if seen.eof else 0, 1 if seen.closed else 0, st['calls'] - 1])
+        if gen is not None:
+            try:
+                await gen.aclose()
+            except Exception:  # noqa: BLE001
+                pass
+        box['calls_in_responder'] = st['calls']
+
+    app_box['script'] = script
+    loop.run_until_complete(app_box['asgi'](scope, receive, send))
+    box['calls_total'] = st['calls']
+    box['status'] = next((e.get('status') for e in sent if e['type'] == 'http.response.start'), None)
+    return box
+
+
+def run_asgi_request_cases(ctx, falcon, model, cases):
+    import asyncio
+    app_box = make_apps(falcon)
+    loop = asyncio.new_event_loop()
+    try:
+        wires = [[5, wire_first(first), classify_cl(hdr), [wire_event(e) for e in events],
+                  [[1 if via else 0, wire_aop(o)] for via, o in ops]] for first, hdr, events, ops in cases]
+        outs = model.run_many(wires)
+        oracle_q, oracle_meta, bad = [], [], []
+        for i, (case, m) in enumerate(zip(cases, outs)):
+            first, hdr, events, ops = case
+            box = run_asgi_request_impl(falcon, app_box, loop, first, hdr, events, ops, ctx.rng)
+            r = box['out']
+            detail = {'side': 'asgi-request', 'first_event': jd(first), 'content_length_header': hdr,
+                      'events': jd(events), 'ops': jd(ops), 'impl': r, 'status': box['status']}
+            ctx.note_case(('aq', i), any(x[0][0] == 0 and x[0][1] for x in r))
+            ctx.count('asgi-request')
+            for prob in box['problems'][:1]:
+                ctx.violation('wrapper-violated', dict(detail, what=prob), key='aq-alias')
+            if box['calls_total'] != box.get('calls_in_responder') or box['status'] != 200:
+                ctx.violation('wrapper-violated', dict(detail, what='receive() awaited by the framework after the '
+                                                       'responder returned, or the request failed'), key='aq-outside')
+            mo = [x[:5] for x in m[0]]
+            if jd(r) != mo:
+                ctx.count('asgi-request-disagree')
+                bad.append(dict(detail, model=mo, broken='C07.asgi_request_corr'))
+            c = classify_cl(hdr)
+            if c[0] in (0, 1) or (c[0] == 3 and c[1] >= 0):
+                cl = None if c[0] in (0, 1) else c[1]
+                # the stream oracle on the observations made through the accessors
+                obs = [[x[0], x[1], x[2], x[3], x[4], 0, 0] for x in r]
+                oracle_q.append(asgi_obs_wire((first, cl, events, [o for _, o in ops]), [[0, None], obs]))
+                oracle_meta.append(detail)
+        # tell0/eof0 are not observed before the first access: take the model's initial values
+        for q in oracle_q:
+            q[4] = 0
+        init = model.run_many([[1, 1, q[1], q[2], q[3], []] for q in oracle_q])
+        for q, ini in zip(oracle_q, init):
+            q[5] = ini[0][1]
+        verdicts = model.run_many(oracle_q)
+        found = False
+        for d, v in zip(oracle_meta, verdicts):
+            if v:
+                found = True
+                ctx.violation('stream-clause-violated', dict(d, clauses_failed=v,
+                                                             clause_names=[A_CLAUSES[c] for c in sorted(set(v))]),
+                              key='aq-clause-%s' % sorted(set(v)))
+        for d in bad[:1]:
+            ctx.violation('correspondence-broken', d,
+                          found_input=found or any(v['found_input'] for v in ctx.violations), key='aq-corr')
+    finally:
+        loop.close()
 
 
 def exhaustive_wsgi(nops):
@@ -441,9 +773,12 @@ W_CLAUSES = {1: 'returned bytes are not the declared body at the cursor (prefix)
              5: 'bytes taken from wsgi.input but not returned (loss)', 6: 'result shape / unexpected exception',
              7: 'empty result although the declared body is not over'}
 A_CLAUSES = {1: 'returned bytes are not the declared body at the cursor (prefix)', 2: 'sized read returned more than its size',
-             3: 'receive() awaited although Content-Length bytes had been received', 4: 'tell() disagrees with the bytes returned',
-             5: 'eof reported before the whole declared body was returned', 6: 'receive() awaited after a disconnect',
-             7: 'empty read although not at end-of-stream', 8: 'result shape / undocumented exception'}
+             3: 'receive() awaited although Content-Length bytes had been received',
+             4: 'tell() is not the cursor (bytes returned + bytes skipped by exhaust)',
+             5: 'eof reported on an open stream before the cursor reached the end of the declared body',
+             6: 'receive() awaited after a disconnect',
+             7: 'empty read although not at end-of-stream', 8: 'result shape / undocumented exception',
+             9: 'bytes returned after eof had been reported'}
 
 
 def wsgi_in_domain(case):
@@ -459,7 +794,7 @@ def wsgi_obs_wire(case, r):
 
 def asgi_obs_wire(case, r):
     first, cl, events, ops = case
-    return [3, wire_first(first), wire_opt(cl), [wire_event(e) for e in events], r[0][0],
+    return [3, wire_first(first), wire_opt(cl), [wire_event(e) for e in events], r[0][0], r[0][1],
             [[wire_aop(o)] + jd(x) for o, x in zip(ops, r[1])]]
 
 
@@ -591,6 +926,14 @@ def replay(ctx, obj, model=None):
     import falcon
     model = model or common.Model(ctx)
     ops = [tuple(o) for o in obj['ops']]
+    if obj.get('side') == 'wsgi-request':
+        case = (obj['content_length_header'], obj['data'], obj.get('caps', []), ops)
+        return run_wsgi_request_cases(ctx, falcon, model, [case])
+    if obj.get('side') == 'asgi-request':
+        first = obj['first_event']
+        case = ((first[0], first[1]), obj['content_length_header'], [tuple(e) for e in obj['events']],
+                [(bool(v), tuple(o)) for v, o in obj['ops']])
+        return run_asgi_request_cases(ctx, falcon, model, [case])
     if obj.get('side') == 'wsgi':
         case = (obj['content_length'], obj['data'], obj.get('caps', []), ops)
         failing = run_wsgi_cases(ctx, falcon, model, [case], tag='replay-w:%s' % obj.get('_file', ''))
